@@ -31,12 +31,13 @@ import (
 const arrayIntervalMs = 10000
 
 type Interp struct {
-	clk     *vh.Clock
-	live    map[string]*base.SentinelEntry
-	started bool
-	caseNow uint64 // case time (unshifted)
-	shift   uint64
-	last    uint64 // last real virtual time used, 0 = none yet
+	clk       *vh.Clock
+	live      map[string]*base.SentinelEntry
+	started   bool
+	caseNow   uint64 // case time (unshifted)
+	shift     uint64
+	last      uint64 // last real virtual time used, 0 = none yet
+	lastRules []*system.Rule
 }
 
 func New() vh.Interp {
@@ -63,6 +64,7 @@ func (it *Interp) Reset() {
 	system_metric.SetSystemLoad(system_metric.NotRetrievedLoadValue)
 	system_metric.SetSystemCpuUsage(system_metric.NotRetrievedCpuUsageValue)
 	stat.ResetResourceNodeMap()
+	it.lastRules = nil
 	it.started = false
 	it.caseNow = 0
 	it.shift = 0
@@ -115,7 +117,25 @@ func (it *Interp) Step(t []string, op string) string {
 		if !ok {
 			return "bad-op"
 		}
+		it.lastRules = rules
 		_, _ = system.LoadRules(rules)
+		return ""
+	case "remod":
+		// the caller changes one of the rule objects it loaded last in place and loads the same slice again
+		if len(t) != 3 {
+			return "bad-op"
+		}
+		i, err := strconv.Atoi(t[1])
+		nr, ok := parseRules(t[2:])
+		if err != nil || !ok || i < 0 || i >= len(it.lastRules) {
+			return "bad-op"
+		}
+		// only where it is a plain reload for the property: the object was in force and stays valid
+		if system.IsValidSystemRule(it.lastRules[i]) != nil || system.IsValidSystemRule(nr[0]) != nil {
+			return "bad-op"
+		}
+		*it.lastRules[i] = *nr[0]
+		_, _ = system.LoadRules(it.lastRules)
 		return ""
 	case "sys":
 		if len(t) != 3 {
